@@ -903,6 +903,50 @@ func factsWatch(w *strings.Builder) {
 	}
 	sort.Strings(mask)
 	fmt.Fprintf(w, "/-- F7: fsnotify ops in `eventMask` on non-darwin systems. -/\ndef eventMask : List String := %s\n", leanStrList(mask))
+	// F7b: is a receive from the watcher's Errors channel followed by a rescan? R = the functions that (transitively)
+	// call something named refresh; the select case that receives from `….Errors` must call one of them.
+	calls := func(n ast.Node, names map[string]bool) bool {
+		found := false
+		ast.Inspect(n, func(m ast.Node) bool {
+			if ce, ok := m.(*ast.CallExpr); ok {
+				switch fn := ce.Fun.(type) {
+				case *ast.Ident:
+					found = found || names[fn.Name]
+				case *ast.SelectorExpr:
+					found = found || names[fn.Sel.Name]
+				}
+			}
+			return !found
+		})
+		return found
+	}
+	rescanners := map[string]bool{"refresh": true}
+	for changed := true; changed; {
+		changed = false
+		for _, d := range f.Decls {
+			if fn, ok := d.(*ast.FuncDecl); ok && fn.Body != nil && !rescanners[fn.Name.Name] && calls(fn.Body, rescanners) {
+				// (the watcher goroutine itself and the public entry points call refresh; what matters is the Errors case below)
+				rescanners[fn.Name.Name] = true
+				changed = true
+			}
+		}
+	}
+	handled := false
+	ast.Inspect(f, func(m ast.Node) bool {
+		cc, ok := m.(*ast.CommClause)
+		if !ok || cc.Comm == nil {
+			return true
+		}
+		if strings.Contains(nodeString(cc.Comm), "Errors") {
+			for _, st := range cc.Body {
+				if calls(st, rescanners) {
+					handled = true
+				}
+			}
+		}
+		return true
+	})
+	fmt.Fprintf(w, "/-- F7b: the watcher goroutine rescans after an error of the event source (lost events). -/\ndef overflowRescans : Bool := %v\n", handled)
 }
 
 // F2: the tags in the first column of the "Released versions" table of SPEC.md
@@ -965,7 +1009,7 @@ func main() {
 	group(&w, "F4 edits", factsEdits, "def hookNames : List String := []\ndef deviceTypes : List String := []\ndef hookDispatch : List (String × String) := []\n")
 	group(&w, "F5 annotations", factsAnnotations, "def annotationPrefix : String := \"\"\ndef maxNameLen : Nat := 0\ndef k8sQualifiedNameFmt : String := \"\"\ndef k8sDns1123SubdomainFmt : String := \"\"\ndef k8sQualifiedNameMaxLength : Nat := 0\ndef k8sDns1123SubdomainMaxLength : Nat := 0\ndef totalAnnotationSizeLimit : Nat := 0\n")
 	group(&w, "F6 extensions", factsExts, "def extTests : List (String × List String) := []\ndef defaultSpecExt : String := \"\"\ndef tmpPattern : String := \"\"\ndef writeCalls : List String := []\n")
-	group(&w, "F7 watch", factsWatch, "def eventMask : List String := []\n")
+	group(&w, "F7 watch", factsWatch, "def eventMask : List String := []\ndef overflowRescans : Bool := false\n")
 	inGroup = false
 	fmt.Fprintf(&w, "\n/-- extractors that failed on this tree (their facts above are empty fallbacks) -/\ndef factgenErrors : List String := %s\n", leanStrList(factErrors))
 	w.WriteString("\nend Cdi.Generated\n")
